@@ -202,6 +202,55 @@ def t_len_asc_chr(E, L):
         E.prove(len(out) == 1 and bool(out[0] == c), 'CHR$(c) is the one-byte string c')
 
 
+def t_chr_float(E, kind):
+    """CHR$ of a single/double argument: Overflow when the rounded value does not fit an Integer (as every
+    function taking an integer argument), Illegal function call outside 0..255, the one-byte string otherwise."""
+    vals = values_env(with_strings=True)
+    n = E.int('n', -33000, 33000)
+    x = E.new(numbers.Single if kind == 'single' else numbers.Double, None, vals)
+    r = E.call(x.from_int, n)
+    if r.raised:
+        raise Unsupported('from_int raised')
+    rc = E.call(values.chr_, [x])
+    if bool(Or(n < -32768, n > 32767)):
+        E.cover('overflow')
+        E.prove(rc.is_error(BASICError, error.OVERFLOW), 'beyond the Integer range: Overflow')
+    elif bool(Or(n < 0, n > 255)):
+        E.cover('illegal')
+        E.prove(rc.is_error(BASICError, error.IFC), 'outside 0..255: Illegal function call')
+    else:
+        E.cover('char')
+        E.prove(not rc.raised, 'in range: succeeds')
+        if not rc.raised:
+            out = _content(E, rc.value)
+            E.prove(len(out) == 1 and bool(out[0] == n), 'CHR$(n) is the one-byte string n')
+
+
+def t_compare_operators(E, L, shape):
+    """The relational operators on strings (values.eq / neq / gt ..., as the expression evaluator calls them),
+    including operands that share an address: a string computed to be empty carries the address of the string
+    allocated before it, and a variable compared with itself."""
+    vals = values_env(with_strings=True)
+    a = _str(E, vals, L, 'a')
+    ca = _content(E, a)
+    if shape == 'empty at the same address':
+        b = E.new(strings.String, None, vals)
+        E.call(b.from_pointer, 0, E.call(a.address).value)
+        cb = []
+    elif shape == 'itself':
+        b, cb = a, ca
+    else:
+        b = _str(E, vals, L, 'b')
+        cb = _content(E, b)
+    same = (len(ca) == len(cb)) and (not ca or bool(And(*[x == y for x, y in zip(ca, cb)])))
+    re_, rn = E.call(values.eq, a, b), E.call(values.neq, a, b)
+    E.prove(not re_.raised and not rn.raised, 'never raise')
+    if re_.raised or rn.raised:
+        return
+    E.prove(s16(re_.value) == (-1 if same else 0), 'a = b is -1 exactly when lengths and bytes agree')
+    E.prove(s16(rn.value) == (0 if same else -1), 'a <> b is its negation')
+
+
 def t_concat(E, LA, LB):
     vals = values_env(with_strings=True)
     a, b = _str(E, vals, LA, 'a'), _str(E, vals, LB, 'b')
@@ -383,6 +432,9 @@ TASKS = [
     Task('STRING$/SPACE$', t_string_space, cases=[{'fn': f} for f in ('string_', 'space_')]),
     Task('STRING$(n, s$)', t_string_from_char, cases=[{'L': L} for L in (0, 1, 3)]),
     Task('LEN/ASC/CHR$', t_len_asc_chr, cases=[{'L': L} for L in LENS]),
+    Task('CHR$ of a float', t_chr_float, covers=('overflow', 'illegal', 'char'), cases=[{'kind': k} for k in ('single', 'double')]),
+    Task('string = and <> (operator level, shared addresses)', t_compare_operators,
+         cases=[{'L': L, 'shape': sh} for L in (1, 2, 5) for sh in ('two strings', 'empty at the same address', 'itself')]),
     Task('concatenation', t_concat, cases=[{'LA': a, 'LB': b} for a, b in ((0, 0), (0, 3), (2, 3), (255, 0), (254, 1), (255, 1), (128, 128), (1, 255))]),
     Task('string comparison', t_compare, cases=[{'LA': a, 'LB': b} for a in (0, 1, 2, 5) for b in (0, 1, 2, 5)]),
     Task('LSET/RSET', t_lset, cases=[{'LT': t, 'LS': s, 'right': r} for t in (0, 1, 4, 9) for s in (0, 2, 4, 12) for r in (False, True)]),
